@@ -168,6 +168,11 @@ class Run:
         tjm._prep_submit_task_job = _prep
 
         def submit(itasks, *a, **k):
+            itasks = list(itasks)
+            # additive (C06 judge, observation key 'prep'): every proxy handed to job preparation,
+            # with its held / manual-submit flags at that moment
+            run.__dict__.setdefault('prepped', []).extend(
+                [int(t.point), t.tdef.name, bool(t.state.is_held), bool(t.is_manual_submit)] for t in itasks)
             good, _bad = tjm.prep_submit_task_jobs(list(itasks))
             for itask in good:
                 run.launched.append([int(itask.point), itask.tdef.name, itask.submit_num])
@@ -329,7 +334,17 @@ class Run:
             'adds': sorted(getattr(self, 'adds', [])),
             'removed': sorted(getattr(self, 'removed', []), key=lambda r: (r[0], r[1])),
             'stall_at': getattr(self, 'stall_at', None),
+            'prep': sorted(getattr(self, 'prepped', [])),
+            # additive (C43 judge): the stop task and its finished flag; after a 'restart' op the
+            # workflow_params rows (stopcp, stop_task) the stopped scheduler left in the database
+            'stop_task': tp.stop_task_id,
+            'stop_task_fin': bool(tp.stop_task_finished),
+            'db_shutdown': self.__dict__.pop('db_shutdown', None),
+            # additive (C19 judge): the record of completed absolute outputs and the flow counter
+            'abs_done': sorted([int(str(c)), str(n), str(o)] for c, n, o in tp.abs_outputs_done),
+            'flow_counter': int(schd.flow_mgr.counter),
         }
+        self.prepped = []
         self.adds, self.removed, self.stall_at = [], [], None
         self.launched = []
         self.polls = []
@@ -342,8 +357,12 @@ class Run:
         schd = self.schd
         kind = op['op']
         if kind == 'loop':
+            # additive (C19 policies 'stops' / 'redeliver'): count main loops; a loop that did not shut
+            # down has processed the message queue
+            self.loops_done = getattr(self, 'loops_done', 0) + 1
             try:
                 await schd._main_loop()
+                self.unprocessed = []
             except SchedulerStop as exc:
                 self.stop_reason = str(exc.args[0]) if exc.args else 'stop'
         elif kind == 'subres':
@@ -375,6 +394,18 @@ class Run:
             # clean shutdown of the stopped scheduler, then a new Scheduler on the same run directory
             await self.stop_scheduler()
             self.stop_reason = None
+            try:
+                # additive (C43 judge, observation key 'db_shutdown'): what the shutdown left in the DB
+                import sqlite3
+                con = sqlite3.connect(schd.workflow_db_mgr.pri_path, timeout=5)
+                try:
+                    rows = dict(con.execute(
+                        "SELECT key, value FROM workflow_params WHERE key IN ('stopcp', 'stop_task')"))
+                finally:
+                    con.close()
+                self.db_shutdown = {'stopcp': rows.get('stopcp'), 'stop_task': rows.get('stop_task')}
+            except Exception:
+                self.db_shutdown = None
             await self.start(restart=True)
         else:
             raise ValueError(kind)
@@ -385,7 +416,28 @@ class Run:
         schd = self.schd
         if self.stop_reason is not None:
             self.restarts_left -= 1
+            if pol.get('redeliver'):
+                # additive (C19, off by default): job messages that were queued but not processed when the
+                # scheduler shut down are sent again after the restart (what polling on restart recovers)
+                for key, idx in getattr(self, 'unprocessed', []):
+                    job = self.jobs.get(key)
+                    if job is not None:
+                        job['next'] = min(job['next'], idx)
+                # ... and the submission of a task that was still preparing died with the scheduler: no
+                # submit result arrives for it (the task is prepared again after the restart)
+                for itask in schd.pool.get_tasks():
+                    if itask.state.status == 'preparing':
+                        self.jobs.pop((int(itask.point), itask.tdef.name, itask.submit_num), None)
+            self.unprocessed = []
             return {'op': 'restart'}
+        # additive (C19, off by default): policy 'stops' = [[n_loops, mode], ...]: request a stop in the given
+        # mode once that many main loops have run (in list order, one stop per life of the scheduler)
+        stops = pol.get('stops')
+        if stops:
+            done = getattr(self, 'stops_done', 0)
+            if done < len(stops) and schd.stop_mode is None and getattr(self, 'loops_done', 0) >= stops[done][0]:
+                self.stops_done = done + 1
+                return {'op': 'cmd', 'name': 'stop', 'args': {'mode': stops[done][1]}}
         if pol.get('cmds') and rng.random() < pol.get('p_cmd', 0.0):
             op = self.random_cmd(rng, pol)
             if op is not None:
@@ -410,6 +462,7 @@ class Run:
             tid = f'{key[0]}/{key[1]}'
             if kind == 'subres':
                 return {'op': 'subres', 'task': tid, 'ok': payload, 'sn': key[2]}
+            self.__dict__.setdefault('unprocessed', []).append((key, job['next'] - 1))    # (C19 'redeliver')
             return {'op': 'msg', 'task': tid, 'msg': payload, 'sn': key[2],
                     'sev': 'CRITICAL' if payload == 'failed' else 'INFO'}
         if cands and rng.random() < pol.get('p_noise', 0.0):
@@ -500,6 +553,16 @@ class Run:
 
     def plan_job(self, rng, pol, point, name, sn):
         """Outcome of one job, decided when it is launched."""
+        if pol.get('outcome_by_key'):
+            # additive (C19 differential runs, off by default): the outcome of job (point, name, submit
+            # number) is a function of the case seed and that key only, not of the order of launches
+            plans = self.__dict__.setdefault('plans', {})
+            key = (point, name, sn)
+            if key not in plans:
+                plans[key] = self.plan_job(
+                    random.Random(f'{self.case.get("seed", 0)}/{point}/{name}/{sn}'),
+                    dict(pol, outcome_by_key=False), point, name, sn)
+            return list(plans[key])
         oc = (pol.get('outcomes') or {}).get(name) or {}
         plan = []
         fails = self.fails.setdefault((point, name), [0, 0])
@@ -630,6 +693,9 @@ def extract_graph(schd, case):
                 'children': {out: sorted([c.name, int(c.point), bool(c.is_abs)] for c in cs)
                              for out, cs in itask.graph_children.items()},
                 'next_parentless': None if nxt is None else int(nxt),
+                # additive (C01 judge): whether the instance is parentless (TaskDef.is_parentless); the model
+                # does not read it
+                'parentless': bool(tdef.is_parentless(pt, cfg.start_point)),
             }
             if comp is None:
                 comp = parse_bool(itask.state.outputs._completion_expression.replace('_', '-') if False else itask.state.outputs._completion_expression,
